@@ -47,6 +47,9 @@ def extra_feature_cases(rng):
                        "cfg.enc_mode": 5}))
     out.append(base(frames=12, width=256, height=144, content="cuts", **{"cfg.enable_overlays": 1, "cfg.enc_mode": 7,
                                                                          "cfg.hierarchical_levels": 3}))
+    # wide enough that the chroma planes hold more than one loop-restoration unit per row
+    out.append(base(frames=2, width=854, height=480, content="mix", **{"cfg.enable_restoration_filtering": 1,
+                                                                       "cfg.logical_processors": 8, "cfg.qp": 40}))
     return out
 
 
@@ -193,7 +196,7 @@ def run(chk, tier, replay=None):
     rng = chk.rng
     quick = tier == "quick"
     scale = getattr(chk, "scale", 1)
-    n = int((44 if quick else 600) * scale)
+    n = int((45 if quick else 600) * scale)
     if replay:
         rc = replay["case"]["case"]
         cases = [rc.get("case", rc) if isinstance(rc, dict) else rc]
